@@ -99,6 +99,10 @@ def s4(ctx, rep):
     f = P.method("MetricsStatistics", "add")
     cfg = cfg_of(f)
     table = {"min_metrics": ("min", "np_inf"), "max_metrics": ("max", "-np_inf")}
+    lp = [s for s in walk_shallow(f.node) if isinstance(s, ast.For) and U(s.iter) == "metrics.items()" and isinstance(s.target, ast.Tuple)]
+    if len(lp) != 1:
+        raise AnchorError("MetricsStatistics.add: loop over metrics.items() not found")
+    newv = U(lp[0].target.elts[1])
     for attr, (op, init) in table.items():
         st = [x for x in walk_shallow(f.node) if isinstance(x, ast.Assign) and isinstance(x.targets[0], ast.Subscript)
               and U(x.targets[0].value) == "self." + attr]
@@ -109,15 +113,13 @@ def s4(ctx, rep):
             ok = isinstance(v, ast.Call) and isinstance(v.func, ast.Name) and v.func.id == op and len(v.args) == 2
             if ok:
                 a0, a1 = U(v.args[0]).replace(" ", ""), U(v.args[1])
-                ok = a0 == f"self.{attr}.get({key},{init})" and a1 == "current_metric"
+                ok = a0 == f"self.{attr}.get({key},{init})" and a1 == newv
         rep.put(ok, "S4", "agreement", f"MetricsStatistics.add: {attr}[k] = {op}(old or {init}, new value)", f, st[0] if st else None, "",
                 f"{attr} is not updated with {op}(previous, new) starting from {init}: the running {op[:3]}imum is wrong")
     st = [x for x in walk_shallow(f.node) if isinstance(x, ast.Assign) and isinstance(x.targets[0], ast.Subscript)
           and U(x.targets[0].value) == "self.sum_metrics"]
-    ok = len(st) == 1 and U(st[0].value).replace(" ", "").replace("(", "").replace(")", "") == \
-        f"self.sum_metrics.get{U(st[0].targets[0].slice)},0+current_metric".replace(" ", "")
     ok = len(st) == 1 and isinstance(st[0].value, ast.BinOp) and isinstance(st[0].value.op, ast.Add) and \
-        "self.sum_metrics.get(" in U(st[0].value.left) and U(st[0].value.right) == "current_metric"
+        "self.sum_metrics.get(" in U(st[0].value.left) and U(st[0].value.right) == newv
     rep.put(ok, "S4", "agreement", "MetricsStatistics.add: sum_metrics[k] = old + new value", f, st[0] if st else None, "")
     inc = [n for n in cfg.nodes if n.kind == "stmt" and isinstance(n.ast, ast.AugAssign) and U(n.ast.target) == "self.count"]
     ok = len(inc) == 1 and isinstance(inc[0].ast.op, ast.Add) and U(inc[0].ast.value) == "1" and \
@@ -137,9 +139,11 @@ def s4(ctx, rep):
     rep.put(ok, "S4", "agreement", "TuningStatus.update feeds every new result to the overall and to its trial's statistics, once each", u,
             loops[0] if loops else None, "", "a result is not counted in both the overall and the per-trial statistics exactly once")
     t = P.method("Tuner", "_process_new_results")
-    ok = any(isinstance(x, ast.Call) and fn_name(x) == "update" and "tuning_status" in U(x.func.value) and U(kwarg(x, "new_results")) == "new_results"
-             for x in walk_shallow(t.node))
-    ds = local_defs(t, "new_results")
+    from ..engine import var_from_call
+    nr = var_from_call(t, "fetch_status_results", 1)
+    ok = nr is not None and any(isinstance(x, ast.Call) and fn_name(x) == "update" and "tuning_status" in U(x.func.value)
+                                and U(kwarg(x, "new_results")) == nr for x in walk_shallow(t.node))
+    ds = local_defs(t, nr) if nr else []
     ok = ok and len(ds) == 1 and isinstance(ds[0], tuple) and fn_name(ds[0][1]) == "fetch_status_results"
     rep.put(ok, "S4", "taint", "Tuner._process_new_results hands the statistics exactly what the backend returned", t, None, "")
 
@@ -158,7 +162,9 @@ def s5(ctx, rep):
     rep.put(ok, "S5", "parity", "print_best_metric_found: per-trial optimum and sort direction are dual over the mode", f, ifs[0] if ifs else None, "",
             "the best trial is not selected by the per-trial minimum sorted ascending (min) / maximum sorted descending (max)")
     best = [x for x in walk_shallow(f.node) if isinstance(x, ast.Assign) and isinstance(x.targets[0], ast.Tuple) and "[0]" in U(x.value)]
-    ok = len(best) == 1 and U(best[0].value) == "metric_per_trial[0]"
+    from ..engine import vars_assigned_from, var_from_call
+    srt = set(vars_assigned_from(f, lambda v: isinstance(v, ast.Call) and fn_name(v) == "sorted"))
+    ok = len(best) == 1 and len(srt) == 1 and U(best[0].value) == f"{list(srt)[0]}[0]"
     rets = [U(r.value) for r in returns_of(f) if r.value is not None and U(r.value) != "None"]
     ok = ok and rets == ["(" + ", ".join(U(e) for e in best[0].targets[0].elts) + ")"] if best else False
     rep.put(ok, "S5", "agreement", "print_best_metric_found returns the first entry of the sorted list (trial id, value)", f, None, "")
@@ -172,21 +178,27 @@ def s5(ctx, rep):
         m = parity.mode_test(ifs[0].test)
         amin, amax = (ifs[0].body, ifs[0].orelse) if m == "min" else (ifs[0].orelse, ifs[0].body)
         ok = parity.arms_are_dual(amin, amax) and "argmin" in U(amin[0])
-        ok = ok and any(isinstance(x, ast.Assign) and "self.results.loc[best_index]" in U(x.value) for x in walk_shallow(e.node))
+        bi = U(amin[0].targets[0]) if isinstance(amin[0], ast.Assign) else "?"
+        ok = ok and any(isinstance(x, ast.Assign) and f"self.results.loc[{bi}]" in U(x.value) for x in walk_shallow(e.node))
     rep.put(ok, "S5", "parity", "ExperimentResult.best_config: argmin for min / argmax for max over the results table, row looked up by that index", e, None, "")
     mm = P.func("syne_tune.util.metric_name_mode")
     cm = cfg_of(mm)
     idx = [n for n in cm.nodes if n.kind == "stmt" and isinstance(n.ast, ast.Assign) and U(n.ast.targets[0]) == "metric_mode" and "[" in U(n.ast.value)]
-    ok = len(idx) == 1 and U(idx[0].ast.value) == "metric_mode[metric_index]"
-    mi = [d for d in local_defs(mm, "metric_index") if not isinstance(d, tuple)]
-    ok = ok and len(mi) == 1 and U(mi[0]).replace(" ", "") == "metric_names.index(metric_name)ifisinstance(metric,str)elsemetric"
-    nm = [U(d) for d in local_defs(mm, "metric_name") if not isinstance(d, tuple)]
+    rt = [r.value for r in returns_of(mm) if isinstance(r.value, ast.Tuple) and len(r.value.elts) == 2]
+    mname = U(rt[0].elts[0]) if rt else "?"
+    ok = len(idx) == 1 and isinstance(idx[0].ast.value, ast.Subscript) and U(idx[0].ast.value.value) == "metric_mode" and \
+        isinstance(idx[0].ast.value.slice, ast.Name) and len(rt) == 1 and U(rt[0].elts[1]) == "metric_mode"
+    mix = U(idx[0].ast.value.slice) if ok else "?"
+    mi = [d for d in local_defs(mm, mix) if not isinstance(d, tuple)]
+    ok = ok and len(mi) == 1 and U(mi[0]).replace(" ", "") == f"metric_names.index({mname})ifisinstance(metric,str)elsemetric"
+    nm = [U(d) for d in local_defs(mm, mname) if not isinstance(d, tuple)]
     ok = ok and set(nm) == {"metric", "metric_names[metric]"}
     rep.put(ok, "S5", "agreement", "metric_name_mode: name and mode are taken at the same index of the two lists", mm, None, "",
             "the mode returned for a metric is not the one at the metric's own position")
     t = P.method("Tuner", "best_config")
-    ok = any(isinstance(x, ast.Subscript) and "_trial_dict" in U(x.value) and U(x.slice) == "trial_id" for x in walk_shallow(t.node))
-    ds = local_defs(t, "trial_id")
+    tidv = var_from_call(t, "print_best_metric_found", 0)
+    ok = tidv is not None and any(isinstance(x, ast.Subscript) and "_trial_dict" in U(x.value) and U(x.slice) == tidv for x in walk_shallow(t.node))
+    ds = local_defs(t, tidv) if tidv else []
     ok = ok and len(ds) == 1 and isinstance(ds[0], tuple) and fn_name(ds[0][1]) == "print_best_metric_found" and ds[0][2] == 0
     rep.put(ok, "S5", "taint", "Tuner.best_config looks the configuration up by the trial id print_best_metric_found returned", t, None, "")
 
